@@ -208,4 +208,28 @@ theorem refusal_is_idn_error (b : Build) (c : Conv) (L D : List Nat) (tld : Bool
     isEmail b (fun _ => c) .m6531 (L ++ 64 :: D) tld = .ok { rc := -(E.IDN_ERROR : Int), idnRc := c.rc } :=
   C19.idn_failure_rejected b c L D tld hc hD hDne hbr hL hloc
 
+/-! ### the hypotheses are satisfiable -/
+
+/-- `B.Com` with an oracle that answers as libidn2 does for ASCII domains (`H_ascii`): non-empty labels, conversion = lower case -/
+example : let d := [66, 46, 67, 111, 109]
+    d ≠ [] ∧ (∀ x ∈ splitDots d, x ≠ []) ∧ (fun (x : List Nat) => (⟨0, some (lowerAll x)⟩ : Conv)) d = ⟨0, some (lowerAll d)⟩ := by
+  refine ⟨by decide, ?_, rfl⟩
+  intro x hx
+  have : splitDots [66, 46, 67, 111, 109] = [[66], [67, 111, 109]] := by decide
+  rw [this] at hx
+  simp only [List.mem_cons, List.mem_nil_iff, or_false] at hx
+  rcases hx with rfl | rfl <;> decide
+
+/-- … and on it mode 6531 and mode 5321 agree -/
+example : (hostPart {} (fun x => ⟨0, some (lowerAll x)⟩) .m6531 [97] [66, 46, 67, 111, 109] false).map (·.rc) =
+    (hostPart {} (fun x => ⟨0, some (lowerAll x)⟩) .m5321 [97] [66, 46, 67, 111, 109] false).map (·.rc) := by decide
+
+/-- a refusing oracle on `a@b.com`: the hypotheses of `refusal_is_idn_error` hold -/
+example : (-304 : Int) ≠ 0 ∧ 64 ∉ [98, 46, 99, 111, 109] ∧ [98, 46, 99, 111, 109] ≠ [] ∧ [98, 46, 99, 111, 109].head? ≠ some 91 ∧
+    [97].length ≤ 64 ∧ localOf {} .m6531 [97] = 0 := by
+  refine ⟨by decide, by decide, by decide, by decide, by decide, ?_⟩
+  simp only [localOf, is6531Local, Build.l]
+  rw [loc6531Loop.eq_def]
+  simp [decodeNext, isCntrl, unquotedStep, specials, loc6531Loop.eq_def, locFin]
+
 end Eav.Props.C10
